@@ -33,16 +33,16 @@ fn main() {
                     let sink = gens::Sink(o2);
                     match engine.as_str() {
                         "pure" => gens::gen_pure(seed, thorough, &sink),
-                        "seq" => gens::gen_seq(seed, if thorough { 20_000 } else { 1_500 }, if thorough { 120 } else { 40 }, false, false, &sink),
-                        "conc" => gens::gen_conc(seed, if thorough { 3_000 } else { 150 }, if thorough { 40 } else { 12 }, &sink),
+                        "seq" => gens::gen_seq(seed, if thorough { 8_000 } else { 1_500 }, if thorough { 100 } else { 40 }, false, false, &sink),
+                        "conc" => gens::gen_conc(seed, if thorough { 600 } else { 150 }, if thorough { 24 } else { 12 }, &sink),
                         "concx" => gens::gen_concx(seed, if thorough { 200 } else { 40 }, &sink),
-                        "codec" => codec::gen_codec(seed, if thorough { 3_000 } else { 300 }, if thorough { 20_000 } else { 1_500 }, &sink),
-                        "json" => jsonc::gen_json(seed, if thorough { 3_000 } else { 300 }, &sink),
-                        "snap" => jsonc::gen_snap(seed, if thorough { 6 } else { 3 }, if thorough { 20_000 } else { 1_500 }, false, &sink),
+                        "codec" => codec::gen_codec(seed, if thorough { 1_500 } else { 300 }, if thorough { 6_000 } else { 1_500 }, &sink),
+                        "json" => jsonc::gen_json(seed, if thorough { 1_500 } else { 300 }, &sink),
+                        "snap" => jsonc::gen_snap(seed, if thorough { 4 } else { 3 }, if thorough { 5_000 } else { 1_500 }, false, &sink),
                         "snapx" => jsonc::gen_snap(seed, 1, 0, true, &sink),
-                        "queue" => gens::gen_queue(seed, if thorough { 60_000 } else { 4_000 }, if thorough { 60 } else { 30 }, &sink),
-                        "seq0" => gens::gen_seq(seed, if thorough { 20_000 } else { 1_500 }, if thorough { 120 } else { 40 }, true, false, &sink),
-                        "seqr" => gens::gen_seq(seed, if thorough { 20_000 } else { 1_500 }, if thorough { 120 } else { 40 }, true, true, &sink),
+                        "queue" => gens::gen_queue(seed, if thorough { 12_000 } else { 4_000 }, if thorough { 60 } else { 30 }, &sink),
+                        "seq0" => gens::gen_seq(seed, if thorough { 8_000 } else { 1_500 }, if thorough { 100 } else { 40 }, true, false, &sink),
+                        "seqr" => gens::gen_seq(seed, if thorough { 8_000 } else { 1_500 }, if thorough { 100 } else { 40 }, true, true, &sink),
                         _ => {
                             eprintln!("unknown engine {engine}");
                             std::process::exit(2);
